@@ -2,6 +2,8 @@ import SFV.Proofs.StatesFock
 import SFV.Proofs.StatesGauss
 import SFV.Proofs.StatesFock2
 import SFV.Proofs.StatesGauss2
+import SFV.Proofs.StatesGauss3
+import SFV.Proofs.StatesGauss4
 
 /-!
 # C16 — the observables of a state object are consistent and answer for exactly the requested modes
@@ -322,6 +324,64 @@ theorem bosonic_quad_mix {K : Type} [CommRing K] (c s : K) (comps : List (K × G
     (bosonicQuad c s comps).1 = wsum (comps.map fun p => p.1 * (quad1 c s p.2).1) :=
   bosonicQuad_mix c s comps
 
+/-! ## Gaussian `dm()` / `reduced_dm`: the index layout of the state-vector branch -/
+
+/-- **the axis list `[k for m in range(N) for k in (m, m + N)]` turns `|ψ⟩⟨ψ|` (ket axes first, bra axes last) into the documented
+layout `ρ[i₀, j₀, i₁, j₁, …]`, for every number of modes** -/
+theorem gaussian_dm_layout {K : Type} [Mul K] (k : Nat) (cj : K → K) (ψ : Tens K) (idx : Idx) :
+    trList (dmAxes k) (outerKet k cj ψ) idx = dmSpec k cj ψ idx :=
+  dm_layout k cj ψ idx
+
+/-- **Gaussian `reduced_dm(modes)` / `dm()`**: for an ascending in-range list the full list of a pure state gives `|ψ⟩⟨ψ|` in the
+documented layout, everything else thewalrus' density matrix of the reduced `(μ, V)` as it comes -/
+theorem gaussian_reduced_dm {K : Type} [Mul K] (cj : K → K) (n : Nat) (modes : List Nat) (isPure : Bool) (ψ T : Tens K)
+    (hs : modes.Pairwise (· < ·)) (hr : ∀ m ∈ modes, m < n) :
+    ∃ R, gaussReducedDm cj n modes isPure ψ T = .ok (modes.length, R) ∧
+      ∀ idx, R idx = (if isPure ∧ modes.length = n then dmSpec modes.length cj ψ idx else T idx) :=
+  gaussReducedDm_ok cj n modes isPure ψ T hs hr
+
+/-- the "evens + odds" idiom (`[0, 2, 4, …, 1, 3, 5, …]`, right for `all_fock_probs`) is the inverse permutation: equal to the
+required list for one and two modes, different from three modes on (seeded change C16-a1) -/
+theorem gaussian_dm_evens_odds_counterexample (k : Nat) (hk : 3 ≤ k) :
+    ((List.range k).map (2 * ·) ++ (List.range k).map (2 * · + 1)) ≠ dmAxes k :=
+  evensOdds_ne_dmAxes k hk
+
+/-! ## bosonic `fidelity_coherent`, `purity`, `wigner`: the arguments of `exp` / `det` / `inv` -/
+
+/-- **bosonic `fidelity_coherent`** hands over, per component, the Gaussian arguments (`fidelityCoherentArgs`) read through the
+xpxp ordering: `δ[2a] = μ[2a] − mean[a]`, `δ[2a+1] = μ[2a+1] − mean[a+n]`, `cov_sum = cov + (ħ/2)·1` -/
+theorem bosonic_fidelity_args_are_gaussian {K : Type} [Ring K] (sq h2 : K) (n : Nat) (alphaRe alphaIm : Nat → K) (w : K)
+    (g : GData K) (a : Nat) (ha : a < n) :
+    ∃ d, bosonicFidelityArgs sq h2 alphaRe alphaIm [(w, g)] = [(w, d)] ∧
+      d.mu (2 * a) = g.mu (2 * a) - (fidelityCoherentArgs sq h2 n alphaRe alphaIm).1 a ∧
+      d.mu (2 * a + 1) = g.mu (2 * a + 1) - (fidelityCoherentArgs sq h2 n alphaRe alphaIm).1 (a + n) ∧
+      ∀ b c, d.cov b c = g.cov b c + (fidelityCoherentArgs sq h2 n alphaRe alphaIm).2.1 b c :=
+  bosonicFidelityArgs_match sq h2 n alphaRe alphaIm w g a ha
+
+theorem bosonic_fidelity_vacuum_args {K : Type} [Ring K] (sq h2 : K) (w : K) (g : GData K) (a : Nat) :
+    ∃ d, bosonicFidelityArgs sq h2 (fun _ => 0) (fun _ => 0) [(w, g)] = [(w, d)] ∧ d.mu a = g.mu a :=
+  bosonicFidelityArgs_vacuum sq h2 w g a
+
+/-- **bosonic `purity`** of a one-component state evaluates the Gaussian purity: one pair, `δ = 0`, `Σ = 2·cov`, weight `w²`;
+in general there are `(number of components)²` pairs -/
+theorem bosonic_purity_single {K : Type} [Ring K] (w : K) (g : GData K) :
+    ∃ d, bosonicPurityArgs [(w, g)] = [(w * w, d)] ∧ (∀ a, d.mu a = 0) ∧ ∀ a b, d.cov a b = g.cov a b + g.cov a b :=
+  bosonicPurityArgs_single w g
+
+theorem bosonic_purity_pairs {K : Type} [Add K] [Sub K] [Mul K] (comps : List (K × GData K)) :
+    (bosonicPurityArgs comps).length = comps.length * comps.length :=
+  bosonicPurityArgs_length comps
+
+/-- **parity is `πħ · W(0, 0)`**: at the origin bosonic `wigner` evaluates, component by component, the quadratic form and the
+determinant of `parity_expectation([mode])`; at a component's own mean the quadratic form vanishes -/
+theorem bosonic_parity_is_wigner_at_origin {K : Type} [CommRing K] (comps : List (K × GData K)) :
+    bosonicWignerArgs 0 0 comps = bosonicParityArgs1 comps :=
+  bosonicWignerArgs_origin comps
+
+theorem bosonic_wigner_peak {K : Type} [CommRing K] (w : K) (g : GData K) :
+    bosonicWignerArgs (g.mu 0) (g.mu 1) [(w, g)] = [(w, 0, g.cov 0 0 * g.cov 1 1 - g.cov 0 1 * g.cov 1 0)] :=
+  bosonicWignerArgs_peak w g
+
 /-! ## non-vacuity: the hypotheses are met by concrete non-trivial objects (3–4 modes, permuted selections) -/
 
 example : ([0, 2] : List Nat).Pairwise (· < ·) ∧ ∀ m ∈ ([0, 2] : List Nat), m < 3 := by decide
@@ -349,6 +409,7 @@ example : WellFormedMap [some 0, none, some 1, some 2] := by
 /-- the string of `reduced_dm([0, 2])` on three modes: `ab ee cd -> abcd` -/
 example : indList 3 [0, 2] = [(0, 1), (4, 4), (2, 3)] := by decide
 example : IsSorted [2, 0, 1] [0, 1, 2] := ⟨by decide, by decide⟩
+example : dmAxes 3 = [0, 3, 1, 4, 2, 5] ∧ dmAxes 2 = [0, 2, 1, 3] := by decide
 example : IsArgsort [5, 1, 3] [1, 2, 0] := ⟨by decide, by decide⟩
 example : ([0, 2, 1] : List Nat).Perm [2, 1, 0] := by decide
 example : samplesExpectation [[2, 0, 1], [1, 3, 2]] [0, 2] = (4, 2) := by decide
